@@ -124,9 +124,7 @@ class Tree:
                 mods.append((sm, module(prefix + sm + ".", depth + 1)))
             # aliases whose target lives in a submodule (one or two levels down): `just [mod::]ald args` binds like the target
             for an, hops in (("ald", 1), ("ald2", 2)):
-                # (a module whose only names are aliases is not generated: the code then says `no recipes`, the model,
-                # which keeps recipes and aliases in one table, `no default recipe` - both are errors that run nothing)
-                if an in used or not recs or rng.random() > 0.5:
+                if an in used or rng.random() > 0.5:
                     continue
                 path, cur = [], {"modules": [[n_, m_] for n_, m_ in mods]}
                 for _ in range(hops):
@@ -145,7 +143,7 @@ class Tree:
             self.files[fname] = text
             return {"recipes": [[n_, s_] for n_, s_, _ in recs] + [[a, s_] for a, s_ in aliases],
                     "modules": [[n_, m_] for n_, m_ in mods],
-                    "default": recs[0][1] if recs else None}
+                    "default": recs[0][1] if recs else None, "hasRecipes": bool(recs)}
 
         self.model = module("", 0)
         self.variables = ["v1", "var-2"]
